@@ -175,7 +175,7 @@ pub struct Rewriter<'a> {
     pub cfg: &'a Config,
     pub fired: &'a mut Fired,
     pub tmp: usize,
-    pub self_err: Option<syn::Type>, // replacement for Self::Err when a trait impl is made inherent
+    pub self_err: Option<Vec<(String, syn::Type)>>, // Self::X => type, when a trait impl is made inherent
 }
 
 fn lit_str_of_pat(p: &Pat) -> Option<Vec<syn::LitStr>> {
@@ -596,19 +596,33 @@ impl<'a> VisitMut for Rewriter<'a> {
                 return;
             }
         }
+        // Self::X => the impl's associated type X (R-inherent)
+        if let (Some(assoc), syn::Type::Path(tp)) = (&self.self_err, &*t) {
+            if tp.qself.is_none() && tp.path.segments.len() == 2 && tp.path.segments[0].ident == "Self" {
+                let b = tp.path.segments[1].ident.to_string();
+                if let Some((_, ty)) = assoc.iter().find(|(n, _)| *n == b) {
+                    *t = ty.clone();
+                    return;
+                }
+            }
+        }
         visit_mut::visit_type_mut(self, t);
     }
 
     fn visit_type_path_mut(&mut self, t: &mut syn::TypePath) {
-        // Self::Err => concrete error type (R-inherent)
-        if let Some(err) = &self.self_err {
+        // Self::X => the impl's associated type X (R-inherent)
+        if let Some(assoc) = &self.self_err {
             if t.qself.is_none() && t.path.segments.len() == 2 {
                 let a = t.path.segments[0].ident.to_string();
                 let b = t.path.segments[1].ident.to_string();
-                if a == "Self" && b == "Err" {
-                    if let syn::Type::Path(tp) = err {
-                        *t = tp.clone();
-                        return;
+                if a == "Self" {
+                    for (n, ty) in assoc.iter() {
+                        if *n == b {
+                            if let syn::Type::Path(tp) = ty {
+                                *t = tp.clone();
+                                return;
+                            }
+                        }
                     }
                 }
             }
